@@ -169,7 +169,7 @@ class B:
     if two_byte_control:
       l.control = self.i('control', 16); ctx.assume(ctx.Or((l.control & 1) == 0, (l.control & 3) == 2)); hl = 4
     else:
-      l.control = self.i('control', 8); ctx.assume((l.control & 3) == 3); hl = 3
+      l.control = self.i('control', 8); ctx.assume((l.control & 1) == 1); hl = 3      # every control octet the parser reads as one octet (U format and the low bits 01)
     if snap == 'sym': ctx.assume(ctx.Not(ctx.Eq(l.oui, b'\0\0\0')))      # OUI 0 = encapsulated ethertype: stacks snap_ip / snap_other
     if snap is not None: hl += 5
     l.length = hl
